@@ -128,13 +128,13 @@ def do_merge(m, base, offs, agg, key, label, via_main=False, none_files=False, r
             files.append(f)
         out = os.path.join(d, "merged.hex")
         want = ref_merge(base, offs)
-        if want is not None and len(offs) % 2:
-            from .. import impl
-            impl.prefill(out)
         if repeat is not None:
             # the SAME input file named twice: it overlaps itself completely and must be rejected
             files = files + [files[repeat]]
             want = None
+        if want is not None and len(offs) % 2:
+            from .. import impl
+            impl.prefill(out)
         farg = None if (none_files and not files) else files
         try:
             if via_main:
